@@ -1,6 +1,7 @@
 //! Shared driver for C27/C28/C29: abstract events/messages <-> pallas-network2
 //! behaviours, output draining, state snapshots, Coq printers.
 #![allow(dead_code)]
+pub mod raw;
 use futures::StreamExt;
 use pallas_network2::behavior::responder::{
     ResponderBehavior, ResponderCommand, ResponderEvent, ResponderState,
